@@ -708,6 +708,54 @@ func (e *c15Env) release(n, th int, o c15Owned) (released bool) {
 	return true
 }
 
+// uniqueAllTaken calls the three GenerateUnique* helpers of node n with a check
+// function that answers "exists" for every candidate.
+func (e *c15Env) uniqueAllTaken(n int, owned [][]c15Owned) {
+	m := e.mgrs[n]
+	type api struct {
+		name string
+		kind int
+		call func() (string, error)
+	}
+	apis := []api{
+		{"GenerateUniqueClientID", 0, func() (string, error) {
+			id, err := m.GenerateUniqueClientID(func(int64) (bool, error) { return true, nil })
+			return strconv.FormatInt(id, 10), err
+		}},
+		{"GenerateUniquePortMappingID", 2, func() (string, error) {
+			return m.GenerateUniquePortMappingID(func(string) (bool, error) { return true, nil })
+		}},
+		{"GenerateUniqueNodeID", 3, func() (string, error) {
+			return m.GenerateUniqueNodeID(func(string) (bool, error) { return true, nil })
+		}},
+	}
+	for _, a := range apis {
+		a := a
+		op := c15Op{Kind: c15Kinds[a.kind].name, Gen: true, Node: n, Thread: 0, Via: a.name + "(check=always exists)"}
+		func() {
+			defer func() {
+				if p := recover(); p != nil {
+					e.run.Violation(fmt.Sprintf("C15:panic|op=%s|backend=%s", a.name, e.cs.Backend), map[string]any{"case": e.cs, "panic": fmt.Sprint(p)})
+				}
+			}()
+			op.Call = e.hist.now()
+			id, err := a.call()
+			op.Ret = e.hist.now()
+			if err != nil {
+				op.Err = err.Error()
+				e.hist.add(op)
+				e.run.Count("unique_all_taken_refused", 1)
+				return
+			}
+			op.OK, op.ID = true, id
+			e.hist.add(op)
+			owned[n*e.cs.Threads] = append(owned[n*e.cs.Threads], c15Owned{a.kind, id})
+			e.run.Violation(fmt.Sprintf("C15:unique-id-returned-although-check-says-taken|api=%s", a.name),
+				map[string]any{"case": e.cs, "op": op, "note": "the check function reported every candidate as existing; the helper must fail after its attempts instead of returning one of them"})
+		}()
+	}
+}
+
 // c15RunCase executes one case; false = watchdog fired (inconclusive).
 func c15RunCase(t *testing.T, run *vk.Run, ent *c15Entropy, cs c15Case, fam *c15Stats) bool {
 	rf := &c15RedisFault{r: mrand.New(mrand.NewSource(cs.Sub ^ 0x4ed15))}
@@ -892,6 +940,13 @@ func c15RunCase(t *testing.T, run *vk.Run, ent *c15Entropy, cs c15Case, fam *c15
 			}
 			owned[w] = kept
 		})
+		// ---- phase 4b: the GenerateUnique* helpers with a check that reports every
+		// candidate as already existing (e.g. the repository still knows all of them):
+		// no free id can be found, so each call must fail instead of handing out an id
+		// the check has just declared taken.
+		for n := 0; n < cs.G && !e.stop.Load(); n++ {
+			e.uniqueAllTaken(n, owned)
+		}
 		parallel(func(n, th, w int) {
 			k := rands[w].Intn(len(c15Kinds))
 			if id, ok := e.generate(n, th, k, "after-release"); ok {
@@ -1015,6 +1070,7 @@ func c15TestCluster(t *testing.T) {
 	run.Floor("faults_injected_on_held_id", 50)
 	run.Floor("redis_setnx_failed_before_apply", 50)
 	run.Floor("redis_setnx_reply_lost_after_apply", 50)
+	run.Floor("unique_all_taken_refused", 100)
 }
 
 // TestVerifC15Sched drives small scenarios under the cooperative scheduler: one
@@ -1605,6 +1661,143 @@ func c15TestUUID(t *testing.T) {
 	run.Floor("uuid_ids", 10000)
 }
 
+// c15TestLateEffects — effects that arrive AFTER an operation has returned. Ids are
+// generated and held; Release calls on them fail with an injected storage fault (not
+// applied). Some holders keep their id, others retry the Release successfully and the
+// freed id is immediately issued to another node. Then nothing happens for a settle
+// period, and afterwards every node generates again: all candidates are held, so every
+// generation must fail; an id handed out now is a live id (its holder never released it,
+// or released it BEFORE the current holder got it). The settle period only gives late
+// actions of the code under test (background retries, deferred deletes) the chance to
+// show; the verdict does not depend on its length.
+func c15TestLateEffects(t *testing.T) {
+	vk.Quiet()
+	run := vk.Start(t, "C15", "idgen-late-effects")
+	defer run.Finish()
+	run.Rule("case = (backend memory / redis / hybrid+shared redis, K=4, 2 nodes; node 0 generates all K ids of every kind; every Release then fails once with an injected Delete fault; half of the ids stay with their holder, for the other half the holder's retried Release succeeds and node 1 is issued the freed id; settle 700 ms (thorough: also 1.3 s and 2.2 s); then both nodes generate each kind repeatedly); distinct = (backend, settle)")
+	ent := c15InstallEntropy(t, run)
+	r := run.Rand("late")
+	fam := &c15Stats{}
+	const k = 4
+	settles := []time.Duration{700 * time.Millisecond}
+	if run.Thorough() {
+		settles = []time.Duration{700 * time.Millisecond, 1300 * time.Millisecond, 2200 * time.Millisecond}
+	}
+	type world struct {
+		be     string
+		cl     *c15Cluster
+		e      *c15Env
+		cancel context.CancelFunc
+		failOn atomic.Bool
+	}
+	for _, settle := range settles {
+		var ws []*world
+		for _, be := range []string{"memory", "redis", "hybrid-shared"} {
+			cs := c15Case{Backend: be, K: k, G: 2, Threads: 2, Sub: r.Int63()}
+			run.Case(fmt.Sprintf("late|%s|settle=%s", be, settle), cs)
+			cl, err := c15NewCluster(be, 2, fam, c15ClusterOpts{})
+			if err != nil {
+				t.Fatalf("c15: late cluster: %v", err)
+			}
+			ctx, cancel := context.WithCancel(context.Background())
+			w := &world{be: be, cl: cl, cancel: cancel}
+			w.e = &c15Env{run: run, ent: ent, cs: cs, hist: &c15Hist{}, dbTaken: map[int64]bool{}, seeded: map[string]bool{}}
+			for i := 0; i < 2; i++ {
+				w.e.mgrs = append(w.e.mgrs, NewIDManager(cl.stores[i], ctx))
+			}
+			cl.setHook(func(_, op, key string) error {
+				if w.failOn.Load() && op == "Delete" && strings.HasPrefix(key, "tunnox:id:used:") {
+					run.Count("release_faults_injected", 1)
+					return vk.ErrInjected
+				}
+				return nil
+			})
+			ws = append(ws, w)
+			ent.rd.reset(k, cs.Sub)
+			for kd := range c15Kinds {
+				for i := 0; i < k; i++ {
+					ent.rd.setForce(i)
+					id, ok := w.e.generate(0, 0, kd, "hold")
+					if !ok {
+						ent.rd.setForce(-1)
+						t.Fatalf("c15: late: initial generation failed (%s %s #%d)", be, c15Kinds[kd].name, i)
+					}
+					o := c15Owned{kd, id}
+					// the holder's Release fails (fault injected before the delete is applied)
+					w.failOn.Store(true)
+					released := w.e.release(0, 0, o)
+					w.failOn.Store(false)
+					if released {
+						ent.rd.setForce(-1)
+						t.Fatalf("c15: late: Release of %s was expected to fail with the injected fault", id)
+					}
+					if i%2 == 0 {
+						// the holder keeps the id
+						w.e.seeded[c15Kinds[kd].name+":"+id] = true
+						run.Count("held_after_failed_release", 1)
+						continue
+					}
+					// the holder retries, Release succeeds; the freed id goes to node 1 at once
+					if !w.e.release(0, 0, o) {
+						ent.rd.setForce(-1)
+						t.Fatalf("c15: late: retried Release of %s failed", id)
+					}
+					id2, ok := w.e.generate(1, 0, kd, "reissued")
+					if !ok || id2 != id {
+						ent.rd.setForce(-1)
+						t.Fatalf("c15: late: re-issue of freed id %s gave %q ok=%v", id, id2, ok)
+					}
+					w.e.seeded[c15Kinds[kd].name+":"+id] = true
+					run.Count("reissued_after_retried_release", 1)
+				}
+			}
+			ent.rd.setForce(-1)
+		}
+		time.Sleep(settle) // late actions, if any, get their chance; nothing is judged by the clock
+		run.Count("settle_periods", 1)
+		for _, w := range ws {
+			w := w
+			ent.rd.reset(k, w.e.cs.Sub^0x5eed)
+			var wg sync.WaitGroup
+			for th := 0; th < 4; th++ {
+				wg.Add(1)
+				go func(th int) {
+					defer wg.Done()
+					for round := 0; round < 2; round++ {
+						for kd := range c15Kinds {
+							if _, ok := w.e.generate(th/2, th%2, kd, "after-settle"); ok {
+								run.Count("generated_after_settle", 1)
+							} else {
+								run.Count("refused_after_settle", 1)
+							}
+						}
+					}
+				}(th)
+			}
+			wg.Wait()
+			bad, unknown, parts := c15CheckHistory(w.e.hist.ops)
+			run.Count("partitions_checked", int64(parts))
+			run.Count("checker_timeouts", int64(unknown))
+			for _, p := range bad {
+				run.Violation(fmt.Sprintf("C15:duplicate-live-id|backend=%s|after=settle-period", w.be),
+					map[string]any{"case": w.e.cs, "settle": settle.String(), "kind": p[0].Kind, "id": p[0].ID, "witness": c15Witness(p)})
+			}
+			run.Eval(1)
+			run.Distinct(fmt.Sprintf("%s|%s", w.be, settle))
+			w.cancel()
+			w.cl.close()
+		}
+	}
+	if run.Counter("checker_timeouts") == 0 {
+		run.Count("all_cases_decided", 1)
+	}
+	run.Floor("all_cases_decided", 1)
+	run.Floor("release_faults_injected", 40)
+	run.Floor("held_after_failed_release", 20)
+	run.Floor("reissued_after_retried_release", 20)
+	run.Floor("refused_after_settle", 50)
+}
+
 // TestVerifC15Idgen runs the id-generator monitors one after the other (they share the
 // process-wide entropy fault and must not overlap with each other). The group as a whole
 // is parallel to TestVerifC15NodeLease, whose time is spent waiting for real heartbeats.
@@ -1614,5 +1807,6 @@ func TestVerifC15Idgen(t *testing.T) {
 	t.Run("Sched", c15TestSched)
 	t.Run("Aging", c15TestAging)
 	t.Run("Janitor", c15TestJanitor)
+	t.Run("LateEffects", c15TestLateEffects)
 	t.Run("UUID", c15TestUUID)
 }
